@@ -6,12 +6,31 @@ results of the other properties.
      (`SchemaDecls.schemaFile`, C10's subject) linked into any flat operation file through `import type * as NS`, read with
      the real `__SelectionSet` hook — from C10's closed forms (`Lemmas/DeclsClosed*.lean`).  `C01_end_to_end`: the refinement
      theorem's ⊆ direction with no hypothesis about the declaration file left.
+  2. `resultTree_ok`: with the fuels the model really uses (`fuelFor D = 2·docSize D + 4`, `mfuelFor D = docSize D + 64`)
+     `OpTypes.resultTree` returns a tree for every definition of an accepted, coherent document, provided the list / non-null
+     wrappers of the schema's field types are not absurdly deep: `(Dn + 1)·(G + 1) ≤ docSize D + 64` (`Dn` a nesting bound
+     the document fits, `G` the deepest wrapper nesting).  Ingredients, each for ALL documents: an accepted document has
+     no fragment cycle and therefore nests at most `docSize D` deep (`accepted_document_fits_its_size`);
+     `get_boolean_variables` visits every selection once, so `docSize D` steps suffice
+     (`Lemmas/OpTypesClosedBoolVars.lean` — the first stage's bound was the EXPANDED size); `wrapper_bound_witness`: with
+     70 list markers the model's own merge fuel is exhausted (a limit of the model, not of the code).
+  3. `accepted_document_passes_checks`: unique type names and the decidable checks `parentsOkB` / `selOkB` / `fitsS` of
+     `impl_no_panic` follow from what the REAL pipeline guarantees before generation — `checkOp S D = []` — through
+     prove-c08b's walk lemma (`Lemmas/StagesGen*.lean`), under the schema conditions `schemaOkB` / `ifaceOkB`
+     (both established by the schema check for documents with unique type names: `C08.schemaOk_of_checked`,
+     `C08.ifaceOk_of_checked`; not imported here because the schema-check model is being changed) and `skipIncludeB`.
+     `schema_conditions_of_valid`: `schemaOkB` and C10's `DocOK` from C03's `SchemaValid` (+ no `__` type names + the
+     conditions on scalar texts); `spec_fragment_map_agrees`: the two fragment maps coincide on accepted documents.
+  `C01_pipeline_end_to_end` composes the three.
 -/
 import NitroVerif.Props.C01
 import NitroVerif.Lemmas.OpTypesClosedWitness
+import NitroVerif.Lemmas.OpTypesClosedFile
+import NitroVerif.Lemmas.OpTypesClosedSpecFuel
+import NitroVerif.Lemmas.OpTypesClosedValid
 namespace NitroVerif.Props.C01
 open NitroVerif.Gql NitroVerif.Ts NitroVerif.OpTypes NitroVerif.Exec NitroVerif.DeclCfg NitroVerif.SchemaDecls
-open NitroVerif.OpTypes.Closed
+open NitroVerif.OpTypes.Closed NitroVerif.Stages NitroVerif.CheckOp
 
 /-! ### 1. `Hyp` for the model's schema declaration file -/
 
@@ -71,5 +90,223 @@ example : ∃ T, implTree Closed.W.ctx.S Closed.W.ctx.F 16 16 (.nonNull (.named 
     Closed.W.main_imp (mfuel := 16) (fuel := 16) (root := "Query") (p := {}) (ss := W.selA) rfl ?_
     (σ := sigmaOf [("v", true)]) (o := "Query") (by decide) ⟨3, execMem_sound _ _ 3 _ _ _ (by decide +kernel)⟩
   exact coherence_check_sufficient Closed.W.ctx 4 4 W.selA "Query" (by decide) (by decide)
+
+/-! ### 2. the fuels the model really uses -/
+
+open NitroVerif.OpTypes.Ref in
+/-- **An accepted document nests at most as deep as it is long.** For every schema satisfying `schemaOkB` / `ifaceOkB` /
+    `skipIncludeB` and every document the operation checker accepts, every definition's selection set — fragment spreads
+    expanded — fits the nesting bound `docSize D` (`fitsS`: no fragment cycle, every spread defined): along a path
+    through the expansion, selections are distinct selections of the document, because no fragment is entered twice. -/
+theorem accepted_document_fits_its_size {S : Schema} {D : Doc} (hS : schemaOkB S = true) (hI : ifaceOkB S = true)
+    (hSI : skipIncludeB S = true) (h : checkOp S D = []) : FitsDoc D (docSize D) :=
+  fitsDoc_docSize_of_checked hS hI hSI h
+
+open NitroVerif.OpTypes.Ref in
+/-- **`resultTree_ok`.** `OpTypes.resultTree` — `get_type_for_selection_set` run with THE MODEL'S OWN fuels `fuelFor D`
+    and `mfuelFor D`, the function the K stream compares with the real printer — returns a tree for every definition of
+    the document (no `expect` / `panic!` site, neither fuel exhausted), for every schema with `schemaOkB` / `ifaceOkB` /
+    `skipIncludeB`, every document the operation checker accepts that passes the coherence check `noKeyClashB`
+    (FieldsInSetCanMerge + Leaf Field Selections), provided the type wrappers are not absurdly deep:
+    `(Dn + 1)·(G + 1) ≤ docSize D + 64`, where `Dn` is any nesting bound the document fits (`fitsDocB`, decidable; such a
+    bound exists and `docSize D` is one) and `G = fieldDepthBound S` the deepest list / non-null nesting of a field type.
+    Both fuel bounds of `impl_no_panic` are DISCHARGED: `2·Dn + 2 ≤ fuelFor D` because the nesting is at most `docSize D`,
+    and the auxiliary fuel suffices for `get_boolean_variables` because its work list visits every selection once. -/
+theorem resultTree_ok {S : Schema} {D : Doc} (hS : schemaOkB S = true) (hI : ifaceOkB S = true)
+    (hSI : skipIncludeB S = true) (h : checkOp S D = []) {Dc d : Nat} (hK : noKeyClashB S D Dc d = true)
+    {Dn : Nat} (hfit : fitsDocB D Dn = true) (hG : (Dn + 1) * (fieldDepthBound S + 1) ≤ docSize D + 64) :
+    ∀ x ∈ D, ∀ r, resultTree S D x = some r → ∃ T, r = .ok T :=
+  fun x hx => def_tree_model_fuels hS hI hSI h hx (List.all_eq_true.1 hK x hx) (fitsDoc_of_check hfit) hG
+
+/-- `query Q($v: Boolean!) { a { x } a { y @skip(if: $v) } }` -/
+def wOp : ExecDef :=
+  .op { kind := .query, name := some ("Q", {}), vars := [{ name := "v", ty := .nonNull (.named "Boolean" {}) }],
+        sel := W.selA }
+
+def wDoc : Doc := [wOp]
+
+/-- the hypotheses are satisfiable: the witness schema and the document `query Q($v: Boolean!) { a { x } a { y @skip(if: $v) } }`
+    (nesting bound 4, wrapper depth 1, `docSize` 6) -/
+example : schemaOkB Closed.W.S = true ∧ ifaceOkB Closed.W.S = true ∧ skipIncludeB Closed.W.S = true ∧
+    checkOp Closed.W.S wDoc = [] ∧ noKeyClashB Closed.W.S wDoc 4 4 = true ∧ fitsDocB wDoc 4 = true ∧
+    (4 + 1) * (fieldDepthBound Closed.W.S + 1) ≤ docSize wDoc + 64 := by
+  decide +kernel
+
+/-- a named type under `n` list markers -/
+def wrapN : Nat → GType → GType
+  | 0, t => t
+  | n + 1, t => .list (wrapN n t) {}
+
+/-- `type A { x: Int }  type Query { a: [[…[A]…]] }` with `n` list markers (and the built-in scalars) -/
+def deepSchema (n : Nat) : Schema := ⟨[
+  .typeDef { kind := .scalar, name := "Int" }, .typeDef { kind := .scalar, name := "String" },
+  .typeDef { kind := .scalar, name := "Boolean" },
+  .typeDef { kind := .object, name := "A", fields := [{ name := "x", ty := .named "Int" {} }] },
+  .typeDef { kind := .object, name := "Query", fields := [{ name := "a", ty := wrapN n (.named "A" {}) }] }]⟩
+
+/-- `query Q { a { x } a { x } }` -/
+def deepDoc : Doc := [
+  .op { kind := .query, name := some ("Q", {}),
+        sel := [.field none "a" {} [] [] (some [.field none "x" {} [] [] none]),
+                .field none "a" {} [] [] (some [.field none "x" {} [] [] none])] }]
+
+/-- **The wrapper bound of `resultTree_ok` cannot be dropped** (cf. `C08.model_fuels_not_sufficient_witness`): with a
+    field type under 70 list markers every other hypothesis holds, the bound fails (`(2 + 1)·(70 + 1) > 5 + 64`) and the
+    model runs out of its merge fuel; the bound is sufficient, not necessary (66 markers: it fails, yet a tree is returned).
+    A limit of the MODEL — the Rust recursion has no such bound. -/
+theorem wrapper_bound_witness :
+    schemaOkB (deepSchema 70) = true ∧ ifaceOkB (deepSchema 70) = true ∧ skipIncludeB (deepSchema 70) = true ∧
+    checkOp (deepSchema 70) deepDoc = [] ∧ noKeyClashB (deepSchema 70) deepDoc 2 2 = true ∧ fitsDocB deepDoc 2 = true ∧
+    ¬ ((2 + 1) * (fieldDepthBound (deepSchema 70) + 1) ≤ docSize deepDoc + 64) ∧
+    (deepDoc.all fun x => match resultTree (deepSchema 70) deepDoc x with
+      | some (.error .outOfFuel) => true | _ => false) = true ∧
+    (deepDoc.all fun x => match resultTree (deepSchema 66) deepDoc x with
+      | some (.ok _) => true | _ => false) = true := by
+  decide +kernel
+
+/-! ### 3. the decidable checks of `impl_no_panic` follow from the operation check -/
+
+open NitroVerif.OpTypes.Ref in
+/-- **`accepted_document_passes_checks`.** What the REAL pipeline guarantees before generation implies the hypotheses of
+    `impl_no_panic`: for a schema with `schemaOkB` (which contains the uniqueness of type names), `ifaceOkB` and
+    `skipIncludeB`, and a document with `checkOp S D = []`, for every definition of the document: type names are unique,
+    the root / type-condition type has parent objects (`parentsOkB`), and every selection passes the validity check `selOkB`
+    for EVERY possible object type and has no fragment cycle (`fitsS`) — all at the explicit nesting bound `docSize D`. -/
+theorem accepted_document_passes_checks {S : Schema} {D : Doc} (hS : schemaOkB S = true) (hI : ifaceOkB S = true)
+    (hSI : skipIncludeB S = true) (h : checkOp S D = []) {x : ExecDef} (hx : x ∈ D) (hni : ∀ i, x ≠ .imp i) :
+    TypeNamesNodup S ∧ parentsOkB S (rootNameOf S x) = true ∧
+    (S.possibleTypes (rootNameOf S x)).all (fun o => (selOfDef x).all (selOkB S (OpTypes.fragsOf D) (docSize D) o)) = true ∧
+    (selOfDef x).all (fitsS (OpTypes.fragsOf D) (docSize D)) = true := by
+  obtain ⟨A, seen, vars, hA, hq⟩ := def_walked hS hI hSI h hx hni
+  obtain ⟨ct, hct, hcomp, Dp, hDp⟩ := quietSet_ok hS hI hSI (CheckOp.accepted_condsDefined h) hA hq
+  have hfit : ∀ s ∈ selOfDef x, fitsS (OpTypes.fragsOf D) (docSize D) s = true := by
+    intro s hs
+    exact fitsDoc_docSize_of_checked hS hI hSI h x hx s (by rw [selOf_eq]; exact hs)
+  refine ⟨typeNamesNodup_of_valid hS, parentsOk_of_composite hS hct hcomp, ?_, List.all_eq_true.2 hfit⟩
+  rw [List.all_eq_true]
+  intro o ho
+  rw [List.all_eq_true]
+  intro s hs
+  exact selOkB_down (docSize D) Dp o s ((hDp s hs).2 o ho) (hfit s hs)
+
+open NitroVerif.OpTypes.Ref in
+/-- the hypotheses are satisfiable, and the conclusion can be evaluated: the witness schema and document -/
+example : (wOp ∈ wDoc ∧ ∀ i, wOp ≠ .imp i) ∧ parentsOkB Closed.W.S (rootNameOf Closed.W.S wOp) = true ∧
+    (Closed.W.S.possibleTypes (rootNameOf Closed.W.S wOp)).all
+      (fun o => (selOfDef wOp).all (selOkB Closed.W.S (OpTypes.fragsOf wDoc) (docSize wDoc) o)) = true :=
+  ⟨⟨List.mem_cons_self, fun i hi => by cases hi⟩, by decide +kernel, by decide +kernel⟩
+
+/-- **The schema-side hypotheses from C03's `SchemaValid`.** For a schema that is valid in the sense of C03/C04
+    (`Valid.SchemaValid`: the decidable "the schema passed `check`" — unique type names, field / argument / input-field /
+    member types defined and of a usable kind, built-in scalars present, root types objects) and has no type name starting
+    with `__`, and a configuration whose scalar texts stay clear of the printer's identifiers (`CfgTextsOk` = the last two
+    clauses of C10's `DocOK`): `schemaOkB S` (the condition of `resultTree_ok` / `accepted_document_passes_checks`) and
+    C10's `DocOK` (the condition of `hyp_of_schemaFile`) hold.  What remains on the schema side of the pipeline theorems
+    is `ifaceOkB` (objects implement their interfaces — the schema check's `InterfaceFieldNotImplemented` …, derived in
+    `C08.ifaceOk_of_checked`) and `skipIncludeB`. -/
+theorem schema_conditions_of_valid {cfg : Cfg} {S : Schema} (hv : Valid.SchemaValid S)
+    (hd : noDunderTypeNamesB S = true) (hc : CfgTextsOk cfg S.items) : schemaOkB S = true ∧ DocOK cfg S.items :=
+  ⟨schemaOk_of_valid hv, docOK_of_valid hv hd hc⟩
+
+/-- the witness schema completed with the built-in scalars `Float` and `ID` (which `SchemaValid` requires) -/
+def validSchema : Schema :=
+  ⟨Closed.W.doc ++ [.typeDef { kind := .scalar, name := "Float" }, .typeDef { kind := .scalar, name := "ID" }]⟩
+
+/-- the hypotheses are satisfiable -/
+example : Valid.SchemaValid validSchema ∧ noDunderTypeNamesB validSchema = true ∧
+    CfgTextsOk Closed.W.cfg validSchema.items ∧ ifaceOkB validSchema = true ∧ skipIncludeB validSchema = true :=
+  ⟨by decide +kernel, by decide +kernel, ⟨by decide, by decide⟩, by decide +kernel, by decide +kernel⟩
+
+/-! ### the composition -/
+
+/-- **One fragment map.** The refinement theorem uses one fragment map for the printer model and the specification
+    (`c.F`); the printer collects definitions into a `HashMap` (the LAST definition of a name wins), the specification
+    (`Exec.fragsOf`, what the driver of the O stream uses) takes the FIRST.  On every document the operation checker
+    accepts they are the same function, because the checker reports repeated fragment names. -/
+theorem spec_fragment_map_agrees {S : Schema} {D : Doc} (h : checkOp S D = []) : Exec.fragsOf D = OpTypes.fragsOf D :=
+  fragMaps_agree (CheckOp.accepted_nodup h)
+
+/-- `query Q { a { ...F } }  fragment F on A { x }` -/
+def fragDoc : Doc := [
+  .op { kind := .query, name := some ("Q", {}),
+        sel := [.field none "a" {} [] [] (some [.spread "F" {} [] {}])] },
+  .frag { name := "F", cond := "A", sel := [.field none "x" {} [] [] none] }]
+
+/-- the hypothesis is satisfiable by a document with a fragment -/
+example : checkOp Closed.W.S fragDoc = [] := by decide +kernel
+
+open NitroVerif.OpTypes.Ref in
+/-- **`C01_pipeline_end_to_end`.** For every schema `S` with `schemaOkB` / `ifaceOkB` / `skipIncludeB` (what the schema
+    check establishes), configuration `cfg` with C10's `DocOK` and `CfgOk`, and every document `D` that PASSES THE OPERATION
+    CHECK (`checkOp S D = []`) and satisfies FieldsInSetCanMerge (`noKeyClashB`), whose wrappers are not absurdly deep:
+    for every definition of `D`, the model of the operation type printer — run with its own fuels — returns a tree `T`,
+    `opDecls` declares the type `toTs ns T` for it, and EVERY response of a spec-conformant execution of the definition's
+    selection set on a possible object type of its root is a member of that type, closed against the declaration table
+    of THE MODEL'S operation file (`opFileOf`) linked with THE MODEL'S schema declaration file `F` and read with the real
+    `__SelectionSet` hook.  (The specification's fuel is arbitrary: the ⊆ direction needs none.  `specCtx` takes the
+    printer's fragment map, which on accepted documents is the specification's: `spec_fragment_map_agrees`.) -/
+theorem C01_pipeline_end_to_end {cfg : Cfg} {S : Schema} {D : Doc} {F : File} (scalar : Name → J → Bool) (fuel : Nat)
+    (hS : schemaOkB S = true) (hI : ifaceOkB S = true) (hSI : skipIncludeB S = true)
+    (hF : schemaFile cfg S.items = .ok F) (ok : DocOK cfg S.items) (K : CfgOk cfg (specCtx S D scalar fuel))
+    (h : checkOp S D = []) {Dc d : Nat} (hK : noKeyClashB S D Dc d = true)
+    {Dn : Nat} (hfit : fitsDocB D Dn = true) (hG : (Dn + 1) * (fieldDepthBound S + 1) ≤ docSize D + 64)
+    (o : Opts) (m : String) {x : ExecDef} (hx : x ∈ D) (hni : ∀ i, x ≠ .imp i) :
+    ∃ T, resultTree S D x = some (.ok T) ∧ (∃ dcl ∈ opDecls S o D, dcl.ty = .ok (toTs o.ns T)) ∧
+      ∀ (σ : Sigma) (o' : Name) (v : J), o' ∈ S.possibleTypes (rootNameOf S x) →
+        Exec (specCtx S D scalar fuel) σ o' (selOfDef x) v →
+        Mem (SelSem.envOf (opFileOf o m S D) m F) v
+          (globalise (Decls.ofFiles (opFileOf o m S D) [(m, F)]) [] [] (toTs o.ns T)) := by
+  have hr : ∃ r, resultTree S D x = some r := by
+    cases x with
+    | op op => exact ⟨_, rfl⟩
+    | frag f => exact ⟨_, rfl⟩
+    | imp i => exact absurd rfl (hni i)
+  obtain ⟨r, hr⟩ := hr
+  obtain ⟨T, rfl⟩ := resultTree_ok hS hI hSI h hK hfit hG x hx r hr
+  refine ⟨T, hr, opDecls_of_resultTree S o D hx hr, ?_⟩
+  intro σ o' v ho' hex
+  obtain ⟨p, himpl⟩ := resultTree_implTree hr
+  have hcoh := List.all_eq_true.1 hK x hx
+  simp only [cohDefB, Bool.and_eq_true, List.all_eq_true] at hcoh
+  have hC : ∀ d', Coh (specCtx S D scalar fuel) d' (Sb1 (selOfDef x)) (rootNameOf S x) :=
+    coh_of_cohB (specCtx S D scalar fuel) Dc d (selOfDef x) (rootNameOf S x) hcoh.1 hcoh.2
+  exact C01_end_to_end (c := specCtx S D scalar fuel) hF ok K (opFileOf o m S D) m o.ns (opFileOf_flat o m S D)
+    (opFileOf_imports o m S D) himpl hC ho' hex
+
+set_option maxRecDepth 16384 in
+/-- non-vacuity of the composition: witness schema (with `@skip` defined), default configuration, the document
+    `query Q($v: Boolean!) { a { x } a { y @skip(if: $v) } }` — every hypothesis by `decide` / `rfl`; the theorem gives a
+    tree and membership of the v = true response `{ a: { x: 1 } }` in the type declared as `QResult` -/
+example : ∃ T, resultTree Closed.W.S wDoc wOp = some (.ok T) ∧
+    Mem (SelSem.envOf (opFileOf {} "" Closed.W.S wDoc) "" Closed.W.file) (.obj [("a", OpTypes.W.respX)])
+      (globalise (Decls.ofFiles (opFileOf {} "" Closed.W.S wDoc) [("", Closed.W.file)]) [] [] (toTs "Schema" T)) := by
+  have K : CfgOk Closed.W.cfg (specCtx Closed.W.S wDoc (Closed.W.scalarOf Closed.W.cfg Closed.W.doc) 16) :=
+    ⟨Closed.W.cfgOk.scalars, Closed.W.cfgOk.plain, Closed.W.cfgOk.notNull, Closed.W.cfgOk.inhabited⟩
+  obtain ⟨T, h1, _, h3⟩ := C01_pipeline_end_to_end (cfg := Closed.W.cfg) (S := Closed.W.S) (D := wDoc)
+    (Closed.W.scalarOf Closed.W.cfg Closed.W.doc) 16 (by decide +kernel) (by decide +kernel) (by decide +kernel)
+    Closed.W.file_ok Closed.W.docOK K (by decide +kernel) (Dc := 4) (d := 4) (by decide +kernel) (Dn := 4)
+    (by decide +kernel) (by decide +kernel) {} "" (x := wOp) List.mem_cons_self (by intro i hi; cases hi)
+  exact ⟨T, h1, h3 (sigmaOf [("v", true)]) "Query" _ (by decide)
+    ⟨3, execMem_sound _ _ 3 _ _ _ (by decide +kernel)⟩⟩
+
+/-
+OPEN after this file — carried by K/O only
+
+  * that the Lean models ARE the code: the operation type printer (K of C01), the schema declaration printer (K of C10),
+    the operation checker (K of C03/C04);
+  * the reading of the emitted TypeScript (Ts/Sem.lean, Ts/SelSem.lean) — trusted;
+  * the schema-side hypotheses `schemaOkB` / `ifaceOkB` (derived from the schema check + unique type names in
+    `Props/C08Stages.lean`: `schemaOk_of_checked`, `ifaceOk_of_checked` — kept as hypotheses here because the model of the
+    schema check is being changed so that unique type names follow from it), `skipIncludeB` (a schema may shadow `@skip`),
+    C10's `DocOK` (unique type names, field / member types defined and usable — what the schema check reports —, scalar
+    texts clear of the printer's identifiers) and `CfgOk` (scalar value sets = configured texts — a definition, C09's
+    subject —; no scalar text admits `null` / applies an absolute reference; `inhabited`: every composite type has a
+    possible object type — an interface without implementing object type is valid GraphQL, its member type `never` is
+    read as "key absent" by the trusted reading of `__SelectionSet`);
+  * `noKeyClashB` (FieldsInSetCanMerge): part of spec validity, NOT checked by the real `check` (C03's open finding);
+  * the wrapper bound of `resultTree_ok` is sufficient, not necessary (`wrapper_bound_witness`);
+  * `opFileOf` has only the import and the result-type statements of the operation file (no Variables types, no document
+    constants): the theorems hold for EVERY flat file with that one star import (`C01_end_to_end`).
+-/
 
 end NitroVerif.Props.C01
